@@ -1,16 +1,275 @@
 import CsVerif.Lemmas.C17Gen
+import CsVerif.Lemmas.C17GenU
+import CsVerif.Props.C17
 /-!
 C17 — the tie between the source text and the model, by translation.
 
-`Gen/PyGuard.lean` is produced on every run by `tools/py2lean.py` from the *source* of `guardrails.payload_checksum`.
-The theorem states that the translated definition computes, for every byte string, what the hand-written model
-`C17.payloadChecksum` (on which `only_if_checksum`, `payloadChecksum_bounds`, … are stated) computes.
+`Gen/PyGuard.lean` is produced on every run by `tools/py2lean.py` (typed translator) from the *source* of
+`guardrails.payload_checksum`; `Gen/PyGuardU.lean` by `tools/py2leanu.py` (untyped translator, plug-in `tools/gen/py_guardu.py`) from
+the source of the three generator functions `iter_guardrail_configs_with_beacon`, `find_xor_key_candidates` and
+`iter_guardrail_configs`.  In the untyped translation every Python value is a `PyU.V`, every Python operation one total function of
+`Model/PyU.lean` (+ `PyU_T15.lean` file objects, `PyU_T02.lean` cstruct structures / `try`, `PyU_T17.lean`); a generator function is
+the list of its yields; a function with a file parameter also returns the file object afterwards; each loop is a separate definition
+run by `PyU.whileFuel` / `forList` / `forListElse` (`for … else`).
+
+  * `gen_payload_checksum`: the typed translation computes `C17.payloadChecksum`.
+  * `gen_iter_guardrail_configs_with_beacon`: the translated selection loop — with `iter_guardrail_configs(fh)` and
+    `find_xor_key_candidates(io.BytesIO(…))` EXTERNAL (any functions that answer a list of metadata records / of candidate keys),
+    `payload_checksum` and `utils.xor` the typed translations — computes exactly `C17Gen.withBeaconOneC` (= `C17.withBeaconOne` with
+    the candidate keys as a parameter: unmask with 0x2e, first candidate whose `payload_checksum(unguarded) + 1 == checksum` wins,
+    otherwise metadata only) for every record.  `gen_only_if_checksum` is the central property for the translated definition:
+    whatever the two external functions answer, no configuration is reported unless its checksum matches.
+  * `gen_find_xor_key_candidates`: for every file object, every `io.DEFAULT_BUFFER_SIZE ≥ 0` and every fuel above the file length
+    the translated definition computes `C17.findXorKeyCandidates`.
+  * `gen_iter_guardrail_configs`: for every file object (BytesIO or OS file, any position), every `bytes` mask key and every fuel
+    from `C17Gen.scanFuel` on, the translated scan computes `C17.iterGuardrailConfigs`; `gen_scan_reports_iff` /
+    `gen_marker_found` restate the scan theorems for it.
+  * `gen_pipeline`: the translated selection loop over the other two translated definitions (the composition the driver runs in
+    the `g-wb` stream) computes `C17.iterGuardrailConfigsWithBeacon`; `gen_only_if_checksum_pipeline`.
+So every theorem of `Props/C17.lean` about these functions is a theorem about the function text as it stands now, and an edit that
+changes the meaning of one of them breaks the proof here.  Helper lemmas: `Lemmas/C17Gen.lean`, `Lemmas/C17GenU.lean`.
 -/
 namespace C17Gen
+open PyU
 
 theorem gen_payload_checksum (d : Bytes) :
     Gen.PyGuard.payload_checksum d = .ok ((C17.payloadChecksum d : Nat) : Int) := payload_checksum_eq' d
 
 example : Gen.PyGuard.payload_checksum [1, 2, 3, 255] = .ok 269 := by decide
+
+/-! ### the selection loop: `iter_guardrail_configs_with_beacon` -/
+
+/-- The definition translated from the source of `iter_guardrail_configs_with_beacon`, for ANY external functions: when
+`iter_guardrail_configs(fh)` answers the records `ms` (and leaves the file as `fh'`) and `find_xor_key_candidates(io.BytesIO(g))`
+answers the keys `cands g`, the translated generator yields exactly the model's selection `withBeaconOneC cands` of every
+record, in order, and returns the file as the scan left it. -/
+theorem gen_iter_guardrail_configs_with_beacon (xi xc : V → Py V) (fh fh' : V) (ms : List C17.Meta) (cands : Bytes → List Bytes)
+    (hi : xi fh = .ok (.tuple [.list (ms.map encMeta), fh']))
+    (hc : ∀ g : Bytes, xc (.bytesIO g 0) = .ok (.list ((cands g).map V.bytes))) :
+    Gen.PyGuardU.iter_guardrail_configs_with_beacon xi xc fh
+      = .ok (.tuple [.list ((ms.map (withBeaconOneC cands)).map encMeta), fh']) :=
+  gen_iter_guardrail_configs_with_beacon_proof xi xc fh fh' ms cands hi hc
+
+/-- an exception of the external scan is the exception of the translated generator -/
+theorem gen_iter_guardrail_configs_with_beacon_error (xi xc : V → Py V) (fh : V) (e : PyExc) (hi : xi fh = .error e) :
+    Gen.PyGuardU.iter_guardrail_configs_with_beacon xi xc fh = .error e := by
+  simp only [Gen.PyGuardU.iter_guardrail_configs_with_beacon, hi]
+  rfl
+
+/-- the model's selection function is the instance "candidates = `find_xor_key_candidates`" -/
+theorem withBeaconOne_is_instance (bufSize : Nat) :
+    C17.withBeaconOne bufSize = withBeaconOneC (fun g => C17.findXorKeyCandidates g bufSize) := withBeaconOne_eq bufSize
+
+theorem withBeaconOneC_checksum (cands : Bytes → List Bytes) (m : C17.Meta) : (withBeaconOneC cands m).checksum = m.checksum := by
+  unfold withBeaconOneC; simp only []; split <;> rfl
+
+theorem withBeaconOneC_masked (cands : Bytes → List Bytes) (m : C17.Meta) :
+    (withBeaconOneC cands m).maskedBeaconConfig = m.maskedBeaconConfig := by
+  unfold withBeaconOneC; simp only []; split <;> rfl
+
+/-- what the selection can do to one record that carries no configuration yet -/
+theorem withBeaconOneC_config {cands : Bytes → List Bytes} {m : C17.Meta} {u : Bytes} (h0 : m.unmaskedBeaconConfig = none)
+    (h : (withBeaconOneC cands m).unmaskedBeaconConfig = some u) :
+    C17.payloadChecksum u + 1 = m.checksum ∧
+      ∃ k, (withBeaconOneC cands m).payloadXorKey = some k ∧
+        k ∈ cands (C20.xor m.maskedBeaconConfig Gen.Guardrails.beaconXorKey) ∧
+        u = C20.xor (C20.xor m.maskedBeaconConfig Gen.Guardrails.beaconXorKey) k := by
+  unfold withBeaconOneC at h ⊢
+  simp only [] at h ⊢
+  split at h
+  · rename_i k u' hs
+    simp only [Option.some.injEq] at h
+    subst h
+    obtain ⟨a, b, c⟩ := C17.selectKey_some hs
+    exact ⟨c.symm, k, rfl, a, b⟩
+  · rw [h0] at h; cases h
+
+/-- **only_if_checksum for the translated definition** (unconditional in the two external functions): whatever records the
+scan answers (without a configuration, as the scan builds them) and whatever candidate keys are offered, every record the
+translated generator yields with an unmasked configuration `u` has `payload_checksum(u) + 1 == checksum`, and `u` is the masked
+area unmasked with 0x2e and the reported key, which is one of the offered candidates. -/
+theorem gen_only_if_checksum (xi xc : V → Py V) (fh fh' : V) (ms : List C17.Meta) (cands : Bytes → List Bytes)
+    (hi : xi fh = .ok (.tuple [.list (ms.map encMeta), fh']))
+    (hc : ∀ g : Bytes, xc (.bytesIO g 0) = .ok (.list ((cands g).map V.bytes)))
+    (hnone : ∀ m ∈ ms, m.unmaskedBeaconConfig = none) :
+    ∃ out : List C17.Meta,
+      Gen.PyGuardU.iter_guardrail_configs_with_beacon xi xc fh = .ok (.tuple [.list (out.map encMeta), fh']) ∧
+      out.length = ms.length ∧
+      ∀ m ∈ out, ∀ u, m.unmaskedBeaconConfig = some u →
+        C17.payloadChecksum u + 1 = m.checksum ∧
+          ∃ k, m.payloadXorKey = some k ∧ k ∈ cands (C20.xor m.maskedBeaconConfig Gen.Guardrails.beaconXorKey) ∧
+            u = C20.xor (C20.xor m.maskedBeaconConfig Gen.Guardrails.beaconXorKey) k := by
+  refine ⟨ms.map (withBeaconOneC cands), gen_iter_guardrail_configs_with_beacon xi xc fh fh' ms cands hi hc, by simp, ?_⟩
+  intro m hm u hu
+  simp only [List.mem_map] at hm
+  obtain ⟨m0, hm0, rfl⟩ := hm
+  rw [withBeaconOneC_checksum, withBeaconOneC_masked]
+  exact withBeaconOneC_config (hnone m0 hm0) hu
+
+/-! ### the candidate keys: `find_xor_key_candidates` -/
+
+/-- The definition translated from the source of `find_xor_key_candidates`, for every file object (BytesIO or OS file, any
+position), `io.DEFAULT_BUFFER_SIZE = bufSize` and every fuel above the length of the file: the keys of the model, and the file
+at its end (at 0 when the buffer size is 0: every read is empty). -/
+theorem gen_find_xor_key_candidates (bufSize : Nat) (f : PyFile) (fuel : Nat) (hf : f.data.length < fuel) :
+    Gen.PyGuardU.find_xor_key_candidates (.int (bufSize : Int)) fuel (encFile f)
+      = .ok (encCands (C17.findXorKeyCandidates f.data bufSize) (candEnd bufSize f)) :=
+  gen_find_xor_key_candidates_proof bufSize f fuel hf
+
+/-- the form the driver runs (`g-cands`) -/
+theorem gen_findXorKeyCandidatesG (bufSize : Nat) (f : PyFile) :
+    findXorKeyCandidatesG bufSize f = .ok (encCands (C17.findXorKeyCandidates f.data bufSize) (candEnd bufSize f)) :=
+  gen_find_xor_key_candidates bufSize f (candFuel f) (by unfold candFuel; omega)
+
+/-- `key_is_candidate` for the translated definition: when the environmental key's aligned n-gram strictly dominates, the
+translated generator yields it -/
+theorem gen_key_is_candidate (bufSize : Nat) (guarded K : Bytes) (h2 : 2 ≤ K.length) (h256 : K.length ≤ 256)
+    (hdom : C17.StrictlyMostCommon K (C17.gramsOf bufSize K.length guarded)) (kind : FileKind) (pos : Nat) :
+    ∃ ks, findXorKeyCandidatesG bufSize { data := guarded, pos := pos, kind := kind } = .ok (encCands ks (candEnd bufSize { data := guarded, pos := pos, kind := kind }))
+      ∧ K ∈ ks :=
+  ⟨_, gen_findXorKeyCandidatesG bufSize _, (C17.key_is_candidate bufSize guarded K h2 h256 hdom).2⟩
+
+/-! ### the marker scan: `iter_guardrail_configs` -/
+
+/-- The definition translated from the source of `iter_guardrail_configs`, for every file object (BytesIO or OS file, any
+position), every `bytes` mask key and every fuel from `|file| + settingsFuel + 2` on (both `while True:` loops run on the same
+fuel): the records of the model, and the file at its end. -/
+theorem gen_iter_guardrail_configs (f : PyFile) (xorkey : Bytes) (fuel : Nat) (hf : f.data.length + settingsFuel + 2 ≤ fuel) :
+    Gen.PyGuardU.iter_guardrail_configs fuel (encFile f) (.bytes xorkey)
+      = (C17.iterGuardrailConfigs f xorkey).map (fun ms => encMetas ms (atEnd f)) :=
+  gen_iter_guardrail_configs_proof f xorkey fuel hf
+
+/-- the form the driver runs (`g-scan`) -/
+theorem gen_iterGuardrailConfigsG (f : PyFile) (xorkey : Bytes) :
+    iterGuardrailConfigsG f xorkey = (C17.iterGuardrailConfigs f xorkey).map (fun ms => encMetas ms (atEnd f)) :=
+  gen_iter_guardrail_configs f xorkey (scanFuel f) (Nat.le_refl _)
+
+/-- the translated scan never raises -/
+theorem gen_scan_total (f : PyFile) (xorkey : Bytes) :
+    ∃ ms, iterGuardrailConfigsG f xorkey = .ok (encMetas ms (atEnd f)) := by
+  obtain ⟨ms, h⟩ := C17.iterGuardrailConfigs_total f xorkey
+  exact ⟨ms, by rw [gen_iterGuardrailConfigsG, h]; rfl⟩
+
+/-- **scan_reports_iff for the translated definition**: the translated scan yields the encodings of records `ms` such that a
+record is among them iff it is the record built at an offset where the marker relation holds and a 6144-byte area fits in front -/
+theorem gen_scan_reports_iff (f : PyFile) (xorkey : Bytes) :
+    ∃ ms, iterGuardrailConfigsG f xorkey = .ok (encMetas ms (atEnd f)) ∧
+      ∀ m, m ∈ ms ↔ ∃ off, off < f.data.length ∧ C17.markerAt f.data (C17.maskedStarts xorkey) 6 off ∧
+        Gen.Guardrails.BEACON_CONFIG_PATCH_SIZE ≤ off + 6 ∧
+        m = C17.metaAt f.data xorkey (off + 6) (off + 6 - Gen.Guardrails.BEACON_CONFIG_PATCH_SIZE) := by
+  obtain ⟨ms, hms⟩ := C17.iterGuardrailConfigs_total f xorkey
+  exact ⟨ms, by rw [gen_iterGuardrailConfigsG, hms]; rfl, C17.scan_reports_iff f xorkey ms hms⟩
+
+/-- **marker_found for the translated definition**: a protected area at any offset (guard configuration starting with one of
+the four known settings) is among the yields of the translated scan, and no other record is yielded for that offset -/
+theorem gen_marker_found (pre mb gc key post : Bytes)
+    (hmb : mb.length = Gen.Guardrails.BEACON_CONFIG_PATCH_SIZE) (hgc : gc.length = Gen.Guardrails.GUARD_PATCH_SIZE)
+    (hstart : gc.take 6 ∈ Gen.Guardrails.GUARD_CONFIG_STARTS) :
+    ∃ ms, iterGuardrailConfigsG (PyFile.ofBytes (pre ++ mb ++ C17.maskGuard gc key mb ++ post)) key
+        = .ok (encMetas ms (atEnd (PyFile.ofBytes (pre ++ mb ++ C17.maskGuard gc key mb ++ post)))) ∧
+      C17.areaMeta pre mb gc key ∈ ms ∧
+      ∀ m ∈ ms, m.guardConfigOffset = pre.length + Gen.Guardrails.BEACON_CONFIG_PATCH_SIZE → m = C17.areaMeta pre mb gc key := by
+  obtain ⟨ms, h1, h2, h3⟩ := C17.marker_found pre mb gc key post hmb hgc hstart
+  exact ⟨ms, by rw [gen_iterGuardrailConfigsG, h1]; rfl, h2, h3⟩
+
+/-! ### the three translated definitions together -/
+
+theorem iterX_enc (f : PyFile) :
+    iterX (encFile f) = (C17.iterGuardrailConfigs f).map (fun ms => encMetas ms (atEnd f)) := by
+  have h := gen_iter_guardrail_configs f Gen.Guardrails.defaultGuardXorKey (f.data.length + settingsFuel + 2) (Nat.le_refl _)
+  simp only [iterX, asFile_enc, Gen.PyGuardU.iter_guardrail_configs_default1]
+  exact h
+
+theorem candX_enc (bufSize : Nat) (g : Bytes) :
+    candX bufSize (.bytesIO g 0) = .ok (.list ((C17.findXorKeyCandidates g bufSize).map V.bytes)) := by
+  have h := gen_find_xor_key_candidates bufSize { data := g, pos := 0, kind := .bytesIO } (g.length + 2) (by simp)
+  have he : PyU.mkFile g 0 0 = encFile { data := g, pos := 0, kind := .bytesIO } := rfl
+  simp only [candX, he, h, encCands]
+
+/-- The translated `iter_guardrail_configs_with_beacon` over the translated `iter_guardrail_configs` and
+`find_xor_key_candidates` (what the `g-wb` stream runs) computes the model's `iterGuardrailConfigsWithBeacon`, for every file
+object and every `io.DEFAULT_BUFFER_SIZE`. -/
+theorem gen_pipeline (bufSize : Nat) (f : PyFile) :
+    iterGuardrailConfigsWithBeaconG bufSize f
+      = (C17.iterGuardrailConfigsWithBeacon f bufSize).map (fun ms => encMetas ms (atEnd f)) := by
+  obtain ⟨ms, hms⟩ := C17.iterGuardrailConfigs_total f Gen.Guardrails.defaultGuardXorKey
+  have hi : iterX (encFile f) = .ok (.tuple [.list (ms.map encMeta), encFile (atEnd f)]) := by
+    rw [iterX_enc]
+    have : C17.iterGuardrailConfigs f = .ok ms := hms
+    rw [this]; rfl
+  have := gen_iter_guardrail_configs_with_beacon iterX (candX bufSize) (encFile f) (encFile (atEnd f)) ms
+    (fun g => C17.findXorKeyCandidates g bufSize) hi (candX_enc bufSize)
+  unfold iterGuardrailConfigsWithBeaconG
+  rw [this]
+  unfold C17.iterGuardrailConfigsWithBeacon
+  have : C17.iterGuardrailConfigs f = .ok ms := hms
+  rw [this, withBeaconOne_is_instance]
+  rfl
+
+/-- **only_if_checksum for the three translated definitions together**: every record the composed translated generator yields
+with an unmasked configuration `u` has `payload_checksum(u) + 1 == checksum`; `u` is the masked area unmasked with 0x2e and the
+reported key, one of the candidates -/
+theorem gen_only_if_checksum_pipeline (bufSize : Nat) (f : PyFile) :
+    ∃ ms : List C17.Meta, iterGuardrailConfigsWithBeaconG bufSize f = .ok (encMetas ms (atEnd f)) ∧
+      ∀ m ∈ ms, ∀ u, m.unmaskedBeaconConfig = some u →
+        C17.payloadChecksum u + 1 = m.checksum ∧
+          ∃ k, m.payloadXorKey = some k ∧
+            k ∈ C17.findXorKeyCandidates (C20.xor m.maskedBeaconConfig Gen.Guardrails.beaconXorKey) bufSize ∧
+            u = C20.xor (C20.xor m.maskedBeaconConfig Gen.Guardrails.beaconXorKey) k := by
+  obtain ⟨ms0, h0⟩ := C17.iterGuardrailConfigs_total f Gen.Guardrails.defaultGuardXorKey
+  have hwb : C17.iterGuardrailConfigsWithBeacon f bufSize = .ok (ms0.map (C17.withBeaconOne bufSize)) := by
+    unfold C17.iterGuardrailConfigsWithBeacon
+    have : C17.iterGuardrailConfigs f = .ok ms0 := h0
+    rw [this]
+  refine ⟨_, by rw [gen_pipeline, hwb]; rfl, ?_⟩
+  intro m hm u hu
+  exact C17.only_if_checksum f bufSize _ hwb m hm u hu
+
+/-! ### Non-vacuity: the translated definitions evaluated on concrete inputs -/
+
+/-- a record as the scan builds it: 3 masked bytes, stored checksum `c` -/
+def exMeta (c : Nat) : C17.Meta :=
+  { beaconConfigOffset := 0, guardConfigOffset := 6144, maskedBeaconConfig := [0x2f, 0x2c, 0x2d], maskedGuardConfig := [],
+    beaconXorKey := [0x2e], guardrailXorKey := [0x8a], unmaskedGuardConfig := [], checksum := c, payloadXorKey := none,
+    unmaskedBeaconConfig := none, settings := [] }
+
+-- guarded = 01 02 03; candidates 09 09 (checksum 8+22+30+1 = 61: no) and 01 01 (00 03 02: 0+6+6+1 = 13: yes): the second key wins
+example : Gen.PyGuardU.iter_guardrail_configs_with_beacon (fun fh => .ok (.tuple [.list [encMeta (exMeta 13)], fh]))
+    (fun _ => .ok (.list [.bytes [9, 9], .bytes [1, 1]])) (PyU.mkFile [] 0 0)
+    = .ok (.tuple [.list [encMeta { exMeta 13 with payloadXorKey := some [1, 1], unmaskedBeaconConfig := some [0, 3, 2] }], PyU.mkFile [] 0 0]) := by
+  decide +kernel
+-- no candidate matches (`for … else`): metadata only
+example : Gen.PyGuardU.iter_guardrail_configs_with_beacon (fun fh => .ok (.tuple [.list [encMeta (exMeta 14)], fh]))
+    (fun _ => .ok (.list [.bytes [9, 9], .bytes [1, 1]])) (PyU.mkFile [] 0 0)
+    = .ok (.tuple [.list [encMeta (exMeta 14)], PyU.mkFile [] 0 0]) := by
+  decide +kernel
+-- a record whose `checksum` is `None` never matches; a candidate that is a `str` is a TypeError of `xor`
+example : Gen.PyGuardU.iter_guardrail_configs_with_beacon
+    (fun fh => .ok (.tuple [.list [.inst Gen.PyGuardU.GuardrailMetadata [.int 0, .int 0, .bytes [1], .bytes [], .none, .none, .none, .none, .none, .none, .none]], fh]))
+    (fun _ => .ok (.list [.bytes [9]])) (PyU.mkFile [] 0 0)
+    = .ok (.tuple [.list [.inst Gen.PyGuardU.GuardrailMetadata [.int 0, .int 0, .bytes [1], .bytes [], .bytes [46], .none, .none, .none, .none, .none, .none]], PyU.mkFile [] 0 0]) := by
+  decide +kernel
+example : Gen.PyGuardU.iter_guardrail_configs_with_beacon (fun fh => .ok (.tuple [.list [encMeta (exMeta 13)], fh]))
+    (fun _ => .ok (.list [PyU.lit "ab"])) (PyU.mkFile [] 0 0) = .error .typeError := by
+  decide +kernel
+-- the scan on a 13-byte file: no 6144-byte area fits, nothing is yielded, the file ends at 13; `None` as the key is a TypeError
+example : Gen.PyGuardU.iter_guardrail_configs 400 (PyU.mkFile [1, 2, 3, 4, 5, 6, 7, 8, 9, 10, 11, 12, 13] 5 1) (.bytes [0x8a])
+    = .ok (.tuple [.list [], PyU.mkFile [1, 2, 3, 4, 5, 6, 7, 8, 9, 10, 11, 12, 13] 13 1]) := by
+  decide +kernel
+example : Gen.PyGuardU.iter_guardrail_configs 400 (PyU.mkFile [1, 2, 3] 0 0) .none = .error .typeError := by decide +kernel
+example : Gen.PyGuardU.iter_guardrail_configs 400 .none (.bytes [0x8a]) = .error .attributeError := by decide +kernel
+-- the candidate keys of b"\x01\x02\x01\x02": evaluated by the kernel on both sides (the first four: 0102 | 010201 020000 (a tie) | 01020102)
+example : Gen.PyGuardU.find_xor_key_candidates (.int 8192) 6 (PyU.mkFile [1, 2, 1, 2] 3 0)
+    = .ok (encCands (C17.findXorKeyCandidates [1, 2, 1, 2] 8192) { data := [1, 2, 1, 2], pos := 4, kind := .bytesIO }) := by
+  decide +kernel
+example : (C17.findXorKeyCandidates [1, 2, 1, 2] 8192).take 4 = [[1, 2], [1, 2, 1], [2, 0, 0], [1, 2, 1, 2]] := by decide +kernel
+-- `io.DEFAULT_BUFFER_SIZE = None` reads everything at once; a `str` is a TypeError of `read`
+example : Gen.PyGuardU.find_xor_key_candidates .none 6 (PyU.mkFile [1, 2, 1, 2] 0 0)
+    = Gen.PyGuardU.find_xor_key_candidates (.int 8192) 6 (PyU.mkFile [1, 2, 1, 2] 0 0) := by decide +kernel
+example : Gen.PyGuardU.find_xor_key_candidates (PyU.lit "8") 6 (PyU.mkFile [1, 2, 1, 2] 0 0) = .error .typeError := by decide +kernel
+-- with too little fuel the translated loop reports the fuel pseudo-exception
+example : Gen.PyGuardU.iter_guardrail_configs 5 (PyU.mkFile [1, 2, 3, 4, 5, 6, 7, 8, 9, 10, 11, 12, 13] 0 0) (.bytes [0x8a])
+    = .error .timeoutDiverge := by
+  decide +kernel
 
 end C17Gen
